@@ -195,6 +195,14 @@ def hooks_tie():
                     "HooksC13Proofs.v", "HooksGen.")
 
 
+def logger_tie():
+    """pams.logs.base.Logger and Log.read_and_write* (C10): the pending queue and the dispatch by class"""
+    import py2coq_logger
+    src = os.path.join(REPO, "pams", "logs", "base.py")
+    return _run_tie("translator:pams/logs/base.py(C10 logger)", src, lambda: py2coq_logger.translate(REPO), "LoggerGen.v",
+                    "LoggerC10Proofs.v", "LoggerGen.")
+
+
 def holdings_sweep_c05(seed=0, tier="quick", cov=None):
     """directed search used with the C05 tie: the real Simulator._update_agents_for_execution on small populations and fill lists
     (self-trades, repeated parties, several markets), against the property text: the buyer pays price x volume and receives volume
